@@ -118,7 +118,8 @@ USER_NAMES = ["Swap", "iswap", "Iswap", "swapalpha", "Sqrtswap", "berkeley", "cn
 
 
 def ring_edge_nonlist(inp):
-    """OPEN finding ring-edge-nonlist-containers: circular to_chain_structure re-emits a CNOT/CSIGN that lies on the
+    """input class of the finding ring-edge-nonlist-containers (fixed: C07-ring-edge-containers; only used to group
+    failures and for the input distribution): circular to_chain_structure re-emits a CNOT/CSIGN that lies on the
     closing edge of the ring (|control - target| = N-1 > N//2) with add_gate(name, gate.targets, gate.controls); a
     non-list container (tuple, ndarray) is then wrapped / refused by the gate constructor"""
     if inp.get("fn") != "tcs" or inp.get("setup") != "circular" or inp.get("cont") in (None, "list"):
@@ -698,10 +699,9 @@ def correspond(ctx):
             corr.tally("unbuildable")
             continue
         # model vs implementation: exact gate lists
-        known_class = ring_edge_nonlist(orig_inp)   # open finding: judged by the oracle only (classified there)
-        if known_class:
-            corr.tally("open-finding-class:ring-edge-nonlist-containers")
-        elif st == "ok":
+        if ring_edge_nonlist(orig_inp):
+            corr.tally("class:ring-edge-nonlist-containers")   # repaired by fixes/C07-ring-edge-containers: checked like the rest
+        if st == "ok":
             if mst != "ok" or mout != out:
                 corr.disagree(orig_inp, out, mout if mst == "ok" else "model: rejected", "routed gate list differs from model")
         else:
@@ -768,11 +768,6 @@ def classify(failure):
     inp = failure.get("input") or {}
     what = failure.get("what", "")
     gates = inp.get("gates") or []
-    if inp.get("fn") == "adj" and inp.get("users") and "routed circuit cannot be evaluated" in what:
-        return "adjacent-gates-drops-user-gates"
-    if ring_edge_nonlist(inp) and (what.startswith("range") or what.startswith("router raised")
-                                   or what.startswith("passthrough") or what.startswith("unitary")):
-        return "ring-edge-nonlist-containers"
     if any(g[0] in ALIASES or (g[0] == "SWAPalpha" and inp.get("form") in ("class", "mixed")) for g in gates) and \
             (what.startswith("adjacency") or what.startswith("passthrough") or "cannot be evaluated" in what):
         return "alias-name-not-routed"
